@@ -152,6 +152,11 @@ fn candidates(p: &Plan) -> Vec<Plan> {
                 q.conns[ci].h2[hi].delay_ms = 0;
                 out.push(q);
             }
+            if h.cancel_ms > 0 {
+                let mut q = p.clone();
+                q.conns[ci].h2[hi].cancel_ms = 0;
+                out.push(q);
+            }
         }
     }
     out
